@@ -11,12 +11,25 @@ exception Inner_exit of string
 let res_word = function Exit -> "EXIT" | OOB -> "OOB" | Fuel -> "FUEL" | Ok _ -> "OK"
 let obj0 () : float nmobj = { ob_nfunc = Z0; ob_mpts = O; ob_ndim = O; ob_fmin = 0.0; ob_y = []; ob_simplex = [] }
 
-(* one request to minimize without the tolerance (it belongs to the object) *)
-let read_call kind r (mk : reader -> (float list -> float)) : float nmcall =
+(* one request to minimize without the tolerance (it belongs to the object); arguments may refer to members of the objects:
+   vsrc = g <list> | r <k> <i> <byref> (objs[k].current_simplex[i]) | y <k> <byref> (objs[k].y);  dsrc = vsrc | s (the starting vector itself).
+   byref (the member itself or a copy of it) makes no difference to the model: arguments are values *)
+let read_vsrc r : float vsrc =
+  match word r with
+  | "g" -> VGiven (list r)
+  | "r" -> let k = integer r in let i = integer r in let _ = integer r in VRow (nat_of_int k, nat_of_int i)
+  | "y" -> let k = integer r in let _ = integer r in VY (nat_of_int k)
+  | w -> failwith ("vsrc " ^ w)
+let read_dsrc r : float dsrc =
+  if r.pos < Array.length r.toks && r.toks.(r.pos) = "s" then (ignore (word r); DStart) else DVec (read_vsrc r)
+let read_req kind r (mk : reader -> (float list -> float)) : float nmreq =
   match kind with
-  | "nm" -> let pp = table r in let f = mk r in CallG (f, pp)
-  | "nmd" -> let st = list r in let ds = list r in let f = mk r in CallD (f, st, ds)
-  | _ -> let st = list r in let d = num r in let f = mk r in Call1 (f, st, d)
+  | "nm" -> let pp = table r in let f = mk r in ReqG (f, pp)
+  | "nmS" -> let k = integer r in let _ = integer r in let f = mk r in ReqGS (f, nat_of_int k)
+  | "nmd" -> let st = list r in let ds = list r in let f = mk r in ReqD (f, VGiven st, DVec (VGiven ds))
+  | "nmdR" -> let st = read_vsrc r in let ds = read_dsrc r in let f = mk r in ReqD (f, st, ds)
+  | "nm1R" -> let st = read_vsrc r in let d = num r in let f = mk r in Req1 (f, st, d)
+  | _ -> let st = list r in let d = num r in let f = mk r in Req1 (f, VGiven st, d)
 
 exception Seq_stop
 (* seq: calls in one process on one or several objects; `same` = the answer equals the answer of a fresh object *)
@@ -36,12 +49,13 @@ let handle_seq r =
             | Ok (x, tr) -> put_w "C"; put_f x; put_fl tr; put_i 1   (* find_minimum is a function of its arguments: a repetition gives the same answer *)
             | bad -> Buffer.clear buf; first := true; put_w (res_word bad); raise Seq_stop)
        | _ ->
-           let c = read_call kind r (fun r -> funv (parse_fexpr r)) in
-           (match obj_call fops objs.(ob) ftols.(ob) c with
-            | Ok (ob', o) ->
-                objs.(ob) <- ob';
-                put_w "C"; put_out o;
-                put_i (match fresh_call fops ftols.(ob) c with Ok o2 -> if compare o2 o = 0 then 1 else 0 | _ -> 0)
+           let q = read_req kind r (fun r -> funv (parse_fexpr r)) in
+           let ol = Array.to_list objs and fl = Array.to_list ftols in
+           (match objs_call fops ol fl (nat_of_int ob) q with
+            | Ok (ol', o) ->
+                let same = (match fresh_call fops ftols.(ob) (req_call fops ol q) with Ok o2 -> if compare o2 o = 0 then 1 else 0 | _ -> 0) in
+                List.iteri (fun i x -> objs.(i) <- x) ol';
+                put_w "C"; put_out o; put_i same
             | bad -> Buffer.clear buf; first := true; put_w (res_word bad); raise Seq_stop))
     done
   with Seq_stop -> ())
